@@ -1,0 +1,11 @@
+//go:build verif
+
+package revocation
+
+import "github.com/privacybydesign/gabi/big"
+
+// VerifRandomizers returns the commitment randomizers and the blinding secrets of a non-revocation
+// proof commitment, by name (verification harness only, build tag verif).
+func (c *ProofCommit) VerifRandomizers() (randomizers, secrets map[string]*big.Int) {
+	return c.randomizers, c.secrets
+}
